@@ -827,7 +827,7 @@ func init() {
 			"fee bump (equal/lower fee, same tx, perturbed outputs), finalise (each voted candidate once mined and voted; unvoted txid, another tx of the block, alias position, bit-flipped proof, wrong/forged header, unvoted height, other batch, unmined candidate), approve cancellation (also for ids in other states); " +
 			"a reference state machine written from the statement is stepped with the accepted operations; every acceptance is judged against the generator's ground truth (address script, requested amount, exact integer fee-rate comparison, change output, candidate membership, real inclusion in a voted block), the chain's status of every id is compared with the model after every block, and the paid/refund system txs must be one per terminal id with the finalised candidate's amount. Non-trivial = every judged relayer operation; distinct = (operation, size, perturbation, verdict).",
 		Assume: []string{"amounts < 2^47 and fee rates < 2^32 so that the code's float comparison is exact", "the claimed position is not judged (C04)"},
-		Cases:  func(tier string) int { return map[string]int{"quick": 32, "thorough": 200}[tier] },
+		Cases:  func(tier string) int { return map[string]int{"quick": 48, "thorough": 200}[tier] },
 		Run:    func(c *vc.Ctx, i int) { c05History(c, i) },
 	})
 }
